@@ -279,6 +279,12 @@ class Tracker:
         if not proj:
             return st
         wrap, steps, neg = st
+        if wrap == "tup":
+            # the value sits in component i of a tuple (`match (udp, tcp) { (Some(u), _) => … }`)
+            i_, inner = steps
+            if proj[0] == ".%d" % i_:
+                return self._through_place([p[0]] + proj[1:], inner)
+            return None
         if len(proj) == 2 and proj[0].startswith("@") and proj[1] in (".0",):
             v = proj[0][1:]
             if wrap == "poll" and v == "Ready":
@@ -473,6 +479,16 @@ class Tracker:
                                 self._note(d, site)
                                 if self._add(d, ("discr", n, False)):
                                     changed = True
+                    elif k == "agg" and rv.get("ak") == "tuple":
+                        for i_, o in enumerate(rv["ops"]):
+                            l = op_local(o)
+                            if l is None or l in self._mixed or (o[0] in ("cp", "mv") and len(o[1]) != 1):
+                                continue
+                            for st in list(self.states.get(l, ())):
+                                if st[0] in ("val", "bool", "cf", "tup"):
+                                    self._note(d, site)
+                                    if self._add(d, ("tup", (i_, st), False)):
+                                        changed = True
                     elif k == "un" and rv["op"] == "Not":
                         l = op_local(rv["a"])
                         if l in self._mixed:
